@@ -57,7 +57,8 @@ def reversion(shape):
 def run_shape(ctx, tr, shape, via, origin, d=None, prev=None):
     d = d or ctx.tmp("c05")
     b = envgen.Builder(d)
-    b.symlink = bool(shape.get("symlink"))   # "those exact files": a path that is a symbolic link names the file it points to
+    b.symlink = bool(shape.get("symlink"))
+    b.noncanon = bool(shape.get("noncanon"))   # "those exact files": a path that is a symbolic link names the file it points to
     scn = {"origin": origin, "via": via, "shape": shape}
     if prev is not None:
         scn["prev"] = prev   # the description created just before, in the same process, over the same paths
@@ -96,7 +97,10 @@ def run_shape(ctx, tr, shape, via, origin, d=None, prev=None):
     # dependencies
     for j, (name, child, form, alg) in enumerate(shape.get("deps", [])):
         b2 = envgen.Builder(d / f"alone{j}")
+        b2.noncanon = b.noncanon   # (dependencies of the dependency are files of the same kind)
         alone = standalone(b2, child, 1)
+        if shape.get("noncanon") and form == "path":
+            alone = envgen.widen(alone)   # the file holds the envelope in a non-preferred encoding: THOSE bytes are the dependency
         tr.ev("Created", name=f"alone{j}", e=project.project_env(alone, t))
         found = params[k] if k < len(params) else (None, b"", -1)
         k += 1
@@ -194,6 +198,7 @@ def run(ctx: core.Check):
     tr = toolrun.Trace()
     for k, sh in enumerate(ref_shapes(ctx)):
         sh["symlink"] = k % 4 == 2
+        sh["noncanon"] = k % 3 == 1
         via = "lib" if k % 12 else ("json" if k % 24 else "yaml")
         d = run_shape(ctx, tr, sh, via, "forms")
         if d is not None and k % 3 == 1:
